@@ -462,6 +462,11 @@ class Sim:
         if not proj:
             env[l] = val
             return
+        # `a[i] = v` with a known index: that element (resolved here, where `i` is a local of this environment)
+        if any(isinstance(e, dict) and "i" in e for e in proj):
+            proj = [e if not (isinstance(e, dict) and "i" in e) else
+                    ({"ci": env[e["i"]]} if e["i"] < len(env) and isinstance(env[e["i"]], int) else {"i?": True})
+                    for e in proj]
         base = env[l]
         self._write_into(env, l, base, proj, val, path, fn, bi)
 
@@ -505,14 +510,9 @@ class Sim:
             elif "ci" in e and not e.get("fe"):
                 if isinstance(v, Tup) and e["ci"] < len(v.fields):
                     nv = v.fields[e["ci"]]
-            elif "i" in e and isinstance(env[e["i"]], int):
-                if isinstance(v, Tup) and env[e["i"]] < len(v.fields):
-                    nv = v.fields[env[e["i"]]]
             chain.append((v, e))
             v = nv
         last = proj[-1]
-        if isinstance(last, dict) and "i" in last and isinstance(env[last["i"]], int):
-            last = {"ci": env[last["i"]]}
         if isinstance(last, dict) and "ci" in last and not last.get("fe") and isinstance(v, Tup) and last["ci"] < len(v.fields):
             v.fields[last["ci"]] = val
             return
@@ -531,6 +531,11 @@ class Sim:
                 p.fields[last["f"]] = val
                 env[l] = p
                 return
+        if isinstance(last, dict) and "i?" in last and isinstance(v, Tup):
+            # an element at an unknown index: any of them may have been overwritten
+            v.fields[:] = [UNK] * len(v.fields)
+            path.events.append(("store?", l, val, fn.path if fn else None, bi))
+            return
         # anything else: lose precision on the whole local
         if len(proj) >= 1 and not isinstance(base, (Ref, Opq)):
             if not (isinstance(base, (Adt, Tup, Part))):
@@ -1144,6 +1149,20 @@ class Sim:
 
         return self._inline_multi(fn, env, bb, t, path, depth, next_fn, [itref], after_next)
 
+    def _fold(self, fn, env, bb, t, path, depth, cont, items, k, acc, f):
+        """Iterator::fold over the remaining items of a known array / slice iterator."""
+        if k >= len(items):
+            return [cont(acc, path, env)]
+        ff = self.find_fn(f.path)
+        if ff is None or depth >= self.max_depth:
+            return [cont(UNK, path, env)]
+
+        def after(rv, sp, e, tr):
+            return self._fold(fn, e, bb, t, sp, depth, cont, [tr(x) for x in items], k + 1, rv, tr(f))
+
+        cargs = [f, acc, items[k]] if isinstance(f, Closure) else [acc, items[k]]
+        return self._inline_multi(fn, env, bb, t, path, depth, ff, cargs, after)
+
     def _local_next(self, self_ty):
         """The local `Iterator::next` implementation for an iterator type, if any."""
         base = self_ty.split("<")[0]
@@ -1206,6 +1225,13 @@ class Sim:
             nf = self._local_next(substs[0]) if substs else None
             if nf is not None:
                 return self._find_map(fn, env, bb, t, path, depth, cont, args[0], f, nf, 0)
+        if p == "std::iter::Iterator::fold" and len(args) == 3 and isinstance(x, Adt) and x.adt == "sim::SliceIter" \
+                and isinstance(args[2], (Closure, FnItem)):
+            seq, i = x.fields[0], x.fields[1]
+            elems = list(seq.b if isinstance(seq, Bytes) else seq.fields)[i:]
+            items = [e if len(x.fields) > 2 else Ref([e], 0, ()) for e in elems]
+            x.fields[1] = i + len(elems)
+            return self._fold(fn, env, bb, t, path, depth, cont, items, 0, args[1], args[2])
         if p == "std::iter::Iterator::skip" and isinstance(f, int) and 0 <= f <= 4 and isinstance(x, Adt):
             substs = t["callee"].get("substs") or []
             nf = self._local_next(substs[0]) if substs else None
@@ -1295,6 +1321,12 @@ class Sim:
             return ("value", Adt("sim::SliceIter", 0, [d[0], 0]))
         if has("std::iter::IntoIterator::into_iter") and d and isinstance(d[0], (Bytes, Tup)) and \
                 "IntoIterator for [T; N]>" in rs:
+            return ("value", Adt("sim::SliceIter", 0, [d[0], 0, "by-value"]))
+        if has("std::iter::IntoIterator::into_iter") and d and isinstance(d[0], (Bytes, Tup)) and not rs and len(args) == 1:
+            # `I: IntoIterator` is a type parameter and the value at hand is an array (by value) or a slice / array
+            # reference: the items are the elements resp. references to them
+            if isinstance(args[0], Ref):
+                return ("value", Adt("sim::SliceIter", 0, [d[0], 0]))
             return ("value", Adt("sim::SliceIter", 0, [d[0], 0, "by-value"]))
         if p.endswith("<impl [T]>::iter") and d and isinstance(d[0], Bytes):
             return ("value", Adt("sim::SliceIter", 0, [d[0], 0]))
